@@ -27,7 +27,7 @@ def observe(sw, api, strat, split, flat, rng, tmp, casespell="dict"):
                 cases = [tuple(c) for c in sw.cases]
                 if len(fn_args) == 1 and rng.random() < 0.5:
                     cases = [c[0] for c in cases]
-                out = xyzpy.case_runner(fn, fn_args, cases, combos=sw.combos_arg(rng), constants=sw.consts or None,
+                out = xyzpy.case_runner(fn, fn_args, cases, combos=sw.combos_arg(rng, iterators=True), constants=sw.consts or None,
                                         split=split, verbosity=0, **opts)
                 flat = True
             else:
@@ -41,7 +41,7 @@ def observe(sw, api, strat, split, flat, rng, tmp, casespell="dict"):
                         sw2.cases = [tuple(dict(zip(sw.case_args, c))[a] for a in order) for c in sw.cases]
                         sw2.case_args = order
                         obs["sw"] = sw2
-                out = xyzpy.combo_runner(fn, sw.combos_arg(rng), cases=cases, constants=sw.consts or None,
+                out = xyzpy.combo_runner(fn, sw.combos_arg(rng, iterators=True), cases=cases, constants=sw.consts or None,
                                          split=split, flat=flat, verbosity=0, **opts)
         finally:
             cleanup()
